@@ -95,12 +95,36 @@ func versName(v uint16) int {
 // ---------------------------------------------------------------- key material (fresh per process)
 
 type pki struct {
-	rsaCert, ecCert   bfe_tls.Certificate
-	clientCAs         *x509.CertPool
-	clientCert        tls.Certificate     // crypto/tls client
-	clientCertBfe     bfe_tls.Certificate // bfe_tls raw client
-	clientLeafDER     []byte
-	otherClientCAPool *x509.CertPool // a CA that did not sign clientCert
+	rsaCert, ecCert bfe_tls.Certificate
+	// client CAs 1 ("A") and 2 ("B"); per CA a genuine leaf and a self-made leaf whose issuer NAME is
+	// that CA's subject but which is signed by an unrelated key
+	clientCAs [3]*x509.CertPool
+	leaf      map[string]*clientID // "A", "B", "fakeA", "fakeB"
+}
+
+type clientID struct {
+	goCert  tls.Certificate
+	bfeCert bfe_tls.Certificate
+	der     []byte
+}
+
+func caName(n int) string {
+	if n == 2 {
+		return "B"
+	}
+	return "A"
+}
+
+// clientIdentity maps the abstract certificate class of a connection to key material: "A"/"B" the leaf
+// issued by that CA, "fake" the forgery naming the epoch's current CA as issuer, "none"/"" nothing.
+func clientIdentity(class string, ca int) *clientID {
+	switch class {
+	case "A", "B":
+		return keys.leaf[class]
+	case "fake":
+		return keys.leaf["fake"+caName(ca)]
+	}
+	return nil
 }
 
 var keys pki
@@ -152,37 +176,46 @@ func initKeys() {
 	if keys.ecCert, err = bfe_tls.X509KeyPair(cp, kp); err != nil {
 		panic(err)
 	}
-	// client CA + leaf
-	cak, _ := ecdsa.GenerateKey(elliptic.P256(), rand.Reader)
-	cat := tmpl("verif client CA", true, nil)
-	cader, err := x509.CreateCertificate(rand.Reader, cat, cat, &cak.PublicKey, cak)
-	if err != nil {
-		panic(err)
+	// client CAs + leaves
+	keys.leaf = map[string]*clientID{}
+	for n := 1; n <= 2; n++ {
+		name := caName(n)
+		cat := tmpl("verif client CA "+name, true, nil)
+		mk := func(fake bool) {
+			cak, _ := ecdsa.GenerateKey(elliptic.P256(), rand.Reader)
+			cader, err := x509.CreateCertificate(rand.Reader, cat, cat, &cak.PublicKey, cak)
+			if err != nil {
+				panic(err)
+			}
+			cacert, _ := x509.ParseCertificate(cader)
+			if !fake {
+				keys.clientCAs[n] = x509.NewCertPool()
+				keys.clientCAs[n].AddCert(cacert)
+			}
+			lk, _ := ecdsa.GenerateKey(elliptic.P256(), rand.Reader)
+			lt := tmpl("verif client "+name, false, []x509.ExtKeyUsage{x509.ExtKeyUsageClientAuth})
+			lt.KeyUsage = x509.KeyUsageDigitalSignature
+			lder, err := x509.CreateCertificate(rand.Reader, lt, cacert, &lk.PublicKey, cak)
+			if err != nil {
+				panic(err)
+			}
+			id := &clientID{der: lder}
+			cp, kp := mustPEM(lder, lk)
+			if id.goCert, err = tls.X509KeyPair(cp, kp); err != nil {
+				panic(err)
+			}
+			if id.bfeCert, err = bfe_tls.X509KeyPair(cp, kp); err != nil {
+				panic(err)
+			}
+			if fake {
+				keys.leaf["fake"+name] = id
+			} else {
+				keys.leaf[name] = id
+			}
+		}
+		mk(false)
+		mk(true)
 	}
-	cacert, _ := x509.ParseCertificate(cader)
-	keys.clientCAs = x509.NewCertPool()
-	keys.clientCAs.AddCert(cacert)
-	lk, _ := ecdsa.GenerateKey(elliptic.P256(), rand.Reader)
-	lt := tmpl("verif client", false, []x509.ExtKeyUsage{x509.ExtKeyUsageClientAuth})
-	lt.KeyUsage = x509.KeyUsageDigitalSignature
-	lder, err := x509.CreateCertificate(rand.Reader, lt, cacert, &lk.PublicKey, cak)
-	if err != nil {
-		panic(err)
-	}
-	keys.clientLeafDER = lder
-	cp, kp = mustPEM(lder, lk)
-	if keys.clientCert, err = tls.X509KeyPair(cp, kp); err != nil {
-		panic(err)
-	}
-	if keys.clientCertBfe, err = bfe_tls.X509KeyPair(cp, kp); err != nil {
-		panic(err)
-	}
-	ok2, _ := ecdsa.GenerateKey(elliptic.P256(), rand.Reader)
-	ot := tmpl("verif other client CA", true, nil)
-	oder, _ := x509.CreateCertificate(rand.Reader, ot, ot, &ok2.PublicKey, ok2)
-	oc, _ := x509.ParseCertificate(oder)
-	keys.otherClientCAPool = x509.NewCertPool()
-	keys.otherClientCAPool.AddCert(oc)
 }
 
 // ---------------------------------------------------------------- server side
@@ -210,6 +243,7 @@ type ServerSpec struct {
 	Tickets bool   `json:"tickets"` // session tickets enabled
 	Cache   int    `json:"cache"`   // 0: session cache disabled, n: cache generation n
 	Auth    string `json:"auth"`    // none | request | require
+	CA      int    `json:"ca"`      // client CA in force (1 | 2; 0 = 1), for Config.ClientCAs and the rule's ClientCAs
 }
 
 type staticProtos []string
@@ -258,13 +292,20 @@ func ticketKey(n int) (k [32]byte) {
 	return h
 }
 
+func caIdx(n int) int {
+	if n == 2 {
+		return 2
+	}
+	return 1
+}
+
 // buildServer makes a fresh bfe_tls.Config for the spec.  caches maps generation -> cache.
 func buildServer(sv *ServerSpec, caches map[int]*memCache) *bfe_tls.Config {
 	cfg := &bfe_tls.Config{
 		MinVersion:               vers(sv.Min),
 		MaxVersion:               vers(sv.Max),
 		PreferServerCipherSuites: sv.Prefer,
-		ClientCAs:                keys.clientCAs,
+		ClientCAs:                keys.clientCAs[caIdx(sv.CA)],
 	}
 	if len(sv.Suites) > 0 {
 		cfg.CipherSuites = suites(sv.Suites)
@@ -285,7 +326,7 @@ func buildServer(sv *ServerSpec, caches map[int]*memCache) *bfe_tls.Config {
 		r := &bfe_tls.Rule{Grade: g, NextProtos: staticProtos(sv.Rule.NP), ClientAuth: sv.Rule.ClientAuth,
 			Chacha20: sv.Rule.Chacha}
 		if sv.Rule.ClientAuth {
-			r.ClientCAs = keys.clientCAs
+			r.ClientCAs = keys.clientCAs[caIdx(sv.CA)]
 		}
 		cfg.ServerRule = &sniRule{sni: sv.Rule.SNI, rule: r}
 	}
@@ -325,7 +366,8 @@ type ClientSpec struct {
 	ECC    string   `json:"ecc"` // ok | none | foreign
 	ALPN   []string `json:"alpn"`
 	SNI    string   `json:"sni"`
-	Cert   bool     `json:"cert"` // has a client certificate to present
+	Cert   string   `json:"cert"` // client certificate to present: "" / none | A | B | fake (see clientIdentity)
+	CA     int      `json:"ca"`   // the server's current client CA (decides which forgery "fake" is)
 	// raw client: do not send the session_ticket extension (so that the server assigns a session id)
 	NoTicket bool `json:"noticket"`
 }
@@ -523,8 +565,8 @@ func runConn(cfg *bfe_tls.Config, cl *ClientSpec, goOffer *tls.ClientSessionStat
 			o.CertReq = 0
 			conf.GetClientCertificate = func(*tls.CertificateRequestInfo) (*tls.Certificate, error) {
 				o.CertReq = 1
-				if cl.Cert {
-					return &keys.clientCert, nil
+				if id := clientIdentity(cl.Cert, cl.CA); id != nil {
+					return &id.goCert, nil
 				}
 				return &tls.Certificate{}, nil
 			}
@@ -551,8 +593,8 @@ func runConn(cfg *bfe_tls.Config, cl *ClientSpec, goOffer *tls.ClientSessionStat
 			rw = c
 		} else {
 			conf := &bfe_tls.Config{InsecureSkipVerify: true}
-			if cl.Cert {
-				conf.Certificates = []bfe_tls.Certificate{keys.clientCertBfe}
+			if id := clientIdentity(cl.Cert, cl.CA); id != nil {
+				conf.Certificates = []bfe_tls.Certificate{id.bfeCert}
 			}
 			h := &bfe_tls.VerifTlsnegHello{
 				Vers: vers(cl.Max), MinVers: vers(cl.Min), CipherSuites: suites(cl.Suites),
